@@ -160,6 +160,9 @@ def exc_repr(e: BaseException):
     return ["exc", name, mask(str(e))[:400]]
 
 
+FREEZE_FACTORIES = False  # C12 turns it on: what a missing key does is part of a dictionary's state too
+
+
 def freeze(x, _depth=0):
     """Canonical form: class names, key order, list/tuple, bool/int/float apart."""
     if _depth > 200:
@@ -182,6 +185,9 @@ def freeze(x, _depth=0):
     if isinstance(x, bytes):
         return ["y", x.hex()]
     if isinstance(x, dict):
+        if FREEZE_FACTORIES and hasattr(x, "default_factory"):
+            f_ = x.default_factory
+            tn += "/factory=" + (getattr(f_, "__name__", None) or type(f_).__name__ if f_ is not None else "None")
         return [
             "D:" + tn,
             [[freeze(k, _depth + 1), freeze(v, _depth + 1)] for k, v in x.items()],
@@ -366,7 +372,7 @@ def minimise(check, case: dict, violation: dict, budget_s=60.0):
             return None
         steps += 1
         try:
-            r = in_fork(lambda: check.execute(c), timeout=check.run_timeout_s) if check.isolate else check.execute(c)
+            r = in_fork(lambda: run_case(check, c), timeout=check.run_timeout_s) if check.isolate else run_case(check, c)
         except Exception:  # noqa: BLE001  (a shrunk case may be nonsense for the harness: not a failure)
             return None
         v = r.get("violation")
@@ -471,6 +477,35 @@ class Check:
 _CHECK = None  # set in the parent before the pool forks; never pickled
 
 
+# ---------------------------------------------------------------- process environment knobs
+def gen_env(seed):
+    """Per-run settings of the process the library runs in. They are part of the case (and of its replay file)."""
+    r = Streams(seed)("env")
+    return {"debug_logging": r.random() < 0.1}
+
+
+def apply_env(env):
+    """The library logs through the 'mappyfile' logger; an application (or `mappyfile -vv`) may have it at DEBUG.
+    No result may depend on that. Output goes nowhere either way."""
+    import logging
+
+    lg = logging.getLogger("mappyfile")
+    if (env or {}).get("debug_logging"):
+        logging.disable(logging.NOTSET)
+        lg.setLevel(logging.DEBUG)
+        lg.propagate = False
+        if not lg.handlers:
+            lg.addHandler(logging.NullHandler())
+    else:
+        logging.disable(logging.CRITICAL)
+        lg.setLevel(logging.NOTSET)
+
+
+def run_case(check, case):
+    apply_env(case.get("env") if isinstance(case, dict) else None)
+    return check.execute(case)
+
+
 def _worker_chunk(args):
     base_seed, tier, idxs = args
     check = _CHECK
@@ -496,7 +531,9 @@ def _one_run(check, seed, tier, idx):
         try:
             gi = getattr(check, "generate_idx", None)
             case = gi(seed, tier, idx) if gi else check.generate(seed, tier)
-            r = check.execute(case)
+            if isinstance(case, dict):
+                case.setdefault("env", gen_env(seed))
+            r = run_case(check, case)
             rec = {
                 "idx": idx,
                 "seed": seed,
@@ -507,6 +544,8 @@ def _one_run(check, seed, tier, idx):
                 "violation": r.get("violation"),
             }
             if r.get("violation") or idx < 3:
+                if isinstance(r.get("case_explicit"), dict) and isinstance(case, dict):
+                    r["case_explicit"].setdefault("env", case.get("env"))
                 rec["case"] = r.get("case_explicit") or case
                 if r.get("case_explicit") is not None:
                     rec["case_generated"] = case
@@ -639,7 +678,7 @@ def run_batch(check: Check, tier: str, base_seed: int, script: str) -> int:
             # the explicit (generator-free) form must fail on its own in a pristine process; if it only failed
             # in the context it was cut out of, the generated case is the replay
             try:
-                r0 = in_fork(lambda: check.execute(case), timeout=check.run_timeout_s) if check.isolate else check.execute(case)
+                r0 = in_fork(lambda: run_case(check, case), timeout=check.run_timeout_s) if check.isolate else run_case(check, case)
                 ok0 = bool(r0.get("violation")) and vclass(r0["violation"]) == vclass(v)
             except Exception:  # noqa: BLE001
                 ok0 = False
@@ -748,7 +787,7 @@ def replay_main(check: Check, path: str) -> int:
     with open(path, encoding="utf-8") as f:
         rep = json.load(f)
     check.setup()
-    r = check.execute(rep["case"])
+    r = run_case(check, rep["case"])
     v = r.get("violation")
     if not v:
         print(f"REPLAY-CLEAN property={check.pid} file={path}")
@@ -834,14 +873,17 @@ def main(check: Check, script: str):
                 seed = run_seed(env_seed(), check.pid, i)
                 gi = getattr(check, "generate_idx", None)
                 case_ = gi(seed, tier, i) if gi else check.generate(seed, tier)
-                r = in_fork(lambda: check.execute(case_), timeout=check.run_timeout_s) if check.isolate else check.execute(case_)
+                case_.setdefault("env", gen_env(seed))
+                r = in_fork(lambda: run_case(check, case_), timeout=check.run_timeout_s) if check.isolate else run_case(check, case_)
                 print(f"DIGEST {i} {r.get('digest')} {r.get('steps')} {vclass(r['violation']) if r.get('violation') else '-'}")
             sys.exit(EXIT_OK)
         if a.one is not None:
             check.setup()
             seed = run_seed(env_seed(), check.pid, a.one)
-            case = check.generate(seed, tier)
-            r = check.execute(case)
+            gi = getattr(check, "generate_idx", None)
+            case = gi(seed, tier, a.one) if gi else check.generate(seed, tier)
+            case.setdefault("env", gen_env(seed))
+            r = run_case(check, case)
             print(json.dumps({"case": case, "result": r}, indent=1, default=str)[:20000])
             sys.exit(EXIT_VIOLATION if r.get("violation") else EXIT_OK)
         sys.exit(run_batch(check, tier, env_seed(), script))
